@@ -8,9 +8,18 @@ and compares, per operation and entry, what was processed with the model's name-
 path-visible sets and with the two clauses of the property.
 -/
 import GoUtils.Proofs.Regex
+import GoUtils.Generated.Excl
 import GoUtils.Verdict
 namespace GoUtils.Props.C08
 open GoUtils GoUtils.Regex
+
+/-- the model's `expand` / `excluded` are the code's NewExclusionRegexList / IsPathExcluded: the three
+    format strings, blank patterns skipped (and only them), compile errors turned into 'invalid', an
+    unanchored match of any expression — read from the current source on every run -/
+theorem C08_expansion_in_source :
+    Generated.Excl.ok = true ∧ Generated.Excl.expansions = ["%v", ".*/%v/.*", ".*%v%v%v.*"] ∧
+    Generated.Excl.blankPatternsSkipped = true ∧ Generated.Excl.compileErrorIsInvalid = true ∧
+    Generated.Excl.matchIsUnanchoredAny = true := by decide
 
 /-- NEVER TOUCH, name-based: an entry one of whose components — its own name or an ancestor's — is
     matched in full by a pattern is not processed (for every tree, pattern set and depth) -/
